@@ -39,7 +39,7 @@ EIG_TOL = 1e-6
 # nsi_eigenvector_centrality asks ARPACK (eigsh, shift-invert) for tol=1e-8 on
 # the eigenvalue; the vector then carries errors up to ~1e-5 on graphs with a
 # small spectral gap (observed 6.5e-6 at n=40 in the thorough tier)
-NSI_EIG_TOL = 1e-4
+NSI_EIG_TOL = 1e-6
 
 
 def make(case, weights=True):
